@@ -164,6 +164,12 @@ def encodeFrame (img : ImgHdr) (p : FramePlan) : Option FrameOut :=
               let w : BW := #[]
               let w := if f.patches.isEmpty then w
                 else w.bits (patchBits (img.ecs.filter (·.ty == 0)).length f.patches)
+              let w := match f.splines with
+                | some (qa, sp) => w.bits (splineBits qa sp)
+                | none => w
+              let w := match f.noise with
+                | some lut => (List.range 8).foldl (fun (w : BW) i => w.u 10 (lut.getD i 0)) w
+                | none => w
               let w := (w.bool true).bool true
               -- LZ77 distance multiplier of a sub-bitstream: its widest channel (meta channels included)
               let multOf := fun (chs : List (ChanInfo × Chan)) => chs.foldl (fun m c => max m c.1.w) 0
